@@ -50,7 +50,7 @@ func (fr *Frame) observe(desc string, t types.Type, v Term, depth int, out *[]Ob
 				n = 4
 			}
 			for i := 0; i < n; i++ {
-				loc := te.ElemLoc(e, sArr(v), tAdd(sOff(v), tInt(int64(i))))
+				loc := te.ElemLoc(e, sArr(v), te.sIdx(sOff(v), tInt(int64(i))))
 				if loc.Kind == "obj" {
 					if te.isStructVal(e) {
 						fr.observeStructObj(fmt.Sprintf("%s[%d]", desc, i), e, loc.Base, depth+1, out)
